@@ -333,7 +333,7 @@ class GeneralSurrogate:
         TFit = np.atleast_2d(T).T
         xTrain = self._createInput([xFit, 1/TFit], [data['singleX'], data['singleT']])
 
-        dnkj, dtracer = data['dnkj'], data['dtracer']
+        dnkj, dtracer = np.asarray(data['dnkj']), np.asarray(data['dtracer'])
         if self.numElements == 2:
             dnkjFit = np.atleast_2d(dnkj).T
         else:
